@@ -21,7 +21,7 @@ from typing import Any, Callable, Dict, List, Optional
 import asyncstdlib as A
 
 from .loop import CTX, drive, BudgetExceeded
-from .probes import (Item, canon, SrcState, Plan, NOPLAN, make_source, SyncSrc, FnState, make_fn)
+from .probes import (Item, canon, SrcState, Plan, NOPLAN, make_source, SyncSrc, sync_gen, FnState, make_fn)
 
 MISSING = object()
 
@@ -378,7 +378,7 @@ def _iter_sentinel_fn(side: Side, spec: dict):
 
 
 def run_sync_side(spec: dict, fault: Optional[Fault] = None, steps: Optional[int] = None,
-                  log: bool = True, ops: Optional[List[int]] = None) -> Side:
+                  log: bool = True, ops: Optional[List[int]] = None, gen_twin: bool = False) -> Side:
     """Run the stdlib twin on synchronous probes."""
     side = Side()
     CTX.reset()
@@ -389,13 +389,14 @@ def run_sync_side(spec: dict, fault: Optional[Fault] = None, steps: Optional[int
         side.fns[0].impl = _iter_sentinel_fn(side, spec)  # type: ignore[union-attr]
         S: List[Any] = []
     else:
-        S = [SyncSrc(st) for st in side.srcs]
+        # generator twins do not observe a pull after exhaustion, exactly like generator sources
+        S = [sync_gen(st) if gen_twin else SyncSrc(st) for st in side.srcs]
     if spec["tool"] == "chain_from_iterable":
         outer = SrcState("outer", S, NOPLAN, log)
         if fault is not None and fault.kind == "outer":
             outer.plan = Plan(0, fault.use, fault.exc)
         side.srcs.append(outer)
-        P["outer"] = SyncSrc(outer)
+        P["outer"] = sync_gen(outer) if gen_twin else SyncSrc(outer)
     F = [make_fn(fs, "def") if fs is not None else None for fs in side.fns]
     try:
         if tool.kind == "agg":
